@@ -33,7 +33,7 @@ T = {
          "every catalogue operation with each operand independently a window in a junk parent; three-way oracle",
          "window column offsets are multiples of 64 (documented precondition); *_russian building blocks only on even word offsets; samples"),
  "C10": (1, "exploration", "property-based testing (rapidcheck): metamorphic relation fresh state vs. generated call history + heap patterns injected by an allocation wrapper, plus the model oracle",
-         "the block cache is primed with dirty blocks of exactly the shapes the final operation allocates; fresh heap blocks are pattern-filled and freed ones poisoned through -Wl,--wrap; output digests must agree and every owned matrix must have zero padding",
+         "the block cache is primed with dirty blocks of exactly the shapes the final operation allocates; fresh heap blocks are pattern-filled and freed ones poisoned through -Wl,--wrap; output digests must agree between the fresh state and the state after the history, and - for overwriting operations - between junk / all-zero / all-one destination contents; every owned matrix must have zero padding (judged in every state; residue sweep over the transpose kernels)",
          "results are compared through digests of canonical outputs; the wrapper sees only allocations made from the linked objects (not libpng/libc internals)"),
  "C11": (1, "exploration", "property-based testing (rapidcheck) under fatal ASan/UBSan with an allocator-balance invariant; forked-child fate checks for ill-dimensioned wrapper calls",
          "all catalogue cases with window placements at 8-mod-16 row starts in builds where any sanitizer report kills the process (the journal entry is the verdict); live allocation set must return to its pre-call value (thread-safe build: headers are heap blocks); every checked wrapper x operand with a wrong dimension must die in m4ri_die with operands bit-identical",
@@ -45,7 +45,7 @@ T = {
          "statement's semantics executed literally in the model incl. Pi*A / A*Pi for the same Pi and undo by the transposed counterpart",
          "LAPACK swap form i <= P[i] < length; distinct rows for row addition; trusts the reference model"),
  "C14": (1, "exploration", "stateful model-based testing (rapidcheck-generated command lists against a model of the live set), allocation wrapper for the final balance",
-         "histories cross the 64-header block, the 16-block limit, the 16-slot block cache incl. eviction and dirty reuse; invariants after every command",
+         "histories cross the 64-header block, the 16-block limit, the 16-slot block cache incl. eviction and dirty reuse, zero-area matrices and zero-area windows; invariants after every command",
          "the history is interpreted leniently (indices modulo the live set) so that every generated list is valid; the balance check needs the wrapper builds"),
  "C15": (1, "exploration", "property-based testing (rapidcheck-generated per-thread programs) under ThreadSanitizer + differential against the sequential execution",
          "2..16 threads on thread-private operands in the --enable-thread-safe configuration (header from the repository's configure); a race report terminates the process and is the verdict",
@@ -56,14 +56,14 @@ T = {
  "C17": (1, "exploration", "property-based testing (rapidcheck): observers vs. model predicates and the comparison laws, on owned matrices and windows",
          "near-equal pairs/triples, single-one regions per word class, all four pivot-search paths labelled",
          "mzd_cmp is judged by its laws, not by a particular order; trusts the reference model"),
- "C18": (1, "exploration", "property-based testing (rapidcheck): round trips with an independent reference PNG codec, grammar-based malformed files read in forked children of the fatal-sanitizer build; libFuzzer target in the thorough tier",
-         "every bit depth x colour type x interlace, structure-aware mutations with valid CRCs, JCF single-token corruptions; fates classified (NULL / abort / matrix equal to what the file denotes)",
+ "C18": (1, "exploration", "property-based testing (rapidcheck): round trips with an independent reference PNG codec, grammar-based malformed files read in forked children of the fatal-sanitizer build; coverage-guided libFuzzer slice with a semantic oracle in both tiers (20 s x 4 workers quick, 600 s x 8 thorough)",
+         "every bit depth x colour type x interlace x narrow widths, structure-aware mutations with valid CRCs, JCF single-token corruptions; fates classified (NULL / abort / matrix equal to what the file denotes); intact files of an unsupported kind must be rejected",
          "libpng internals are not judged; abort() through libpng's default error path is an accepted rejection"),
  "C19": (1, "exploration", "exhaustive enumeration of the finite domains + property-based testing (rapidcheck) of the table builder and word kernels",
          "code book k=1..16, all masks, complete single-bit bases of the linear word kernels are enumerated completely; mzd_make_table and random combinations are sampled",
          "definitions are stated in the orientation the code uses (bit b of a pattern <-> row r+b); linearity of the word kernels justifies the basis argument"),
  "C20": (1, "fault_enumeration", "exhaustive single-fault injection per scenario instance via -Wl,--wrap allocation wrapper and forked children; scenario sizes partly rapidcheck-generated",
-         "for each of 45 scenarios x sizes every allocation request index is failed once; required fate SIGABRT with a diagnostic and no sanitizer report",
+         "for each of 47 scenarios x size variants (incl. data blocks above 1 MiB / above the cache threshold and > 64 / > 128 live headers) every allocation request index is failed once; required fate SIGABRT with a diagnostic and no sanitizer report",
          "only requests issued from m4ri objects fail (libc/libpng internals are not intercepted); size-0 requests never fail"),
 }
 
